@@ -59,7 +59,7 @@ struct image {
   JCOEF *coef[MAXC];
 };
 
-struct cfg { int src_prev, opt, arith, ri, rows, prog, nosu, nobi, nscans; jpeg_scan_info scans[MAXSCANS]; };
+struct cfg { int src_prev, opt, arith, ri, rows, prog, nosu, nobi, dcl, dcu, ack, nscans; jpeg_scan_info scans[MAXSCANS]; };
 
 static unsigned char initbuf[1 << 16];   /* caller-owned first output buffer */
 
@@ -100,6 +100,9 @@ static void parse_cfg(char *txt, struct cfg *c) {
     else if (!strncmp(t, "rows=", 5)) c->rows = atoi(t + 5);
     else if (!strncmp(t, "prog=", 5)) c->prog = atoi(t + 5);
     else if (!strcmp(t, "nosu")) c->nosu = 1;
+    else if (!strncmp(t, "dcl=", 4)) c->dcl = atoi(t + 4) + 1;
+    else if (!strncmp(t, "dcu=", 4)) c->dcu = atoi(t + 4) + 1;
+    else if (!strncmp(t, "ack=", 4)) c->ack = atoi(t + 4) + 1;
     else if (!strcmp(t, "nobi")) c->nobi = 1;
     else if (!strncmp(t, "scans=", 6)) c->nscans = parse_scans(t + 6, c->scans, MAXSCANS);
   }
@@ -110,6 +113,12 @@ static void apply_cfg(j_compress_ptr ci, struct cfg *c) {
   ci->arith_code = c->arith ? TRUE : FALSE;
   ci->restart_interval = (unsigned)c->ri;
   ci->restart_in_rows = c->rows;
+  { int i;   /* arithmetic conditioning (emitted as a DAC marker when not the default 0/1/5) */
+    for (i = 0; i < NUM_ARITH_TBLS; i++) {
+      if (c->dcl) ci->arith_dc_L[i] = (UINT8)(c->dcl - 1);
+      if (c->dcu) ci->arith_dc_U[i] = (UINT8)(c->dcu - 1);
+      if (c->ack) ci->arith_ac_K[i] = (UINT8)(c->ack - 1);
+    } }
   if (c->prog) jpeg_simple_progression(ci);
   if (c->nscans) { ci->scan_info = c->scans; ci->num_scans = c->nscans; }
 }
